@@ -30,7 +30,7 @@ def C10_resolvers_full : Prop :=
     routeJoinOperand c parts = routeSimple c parts
 
 /-- where a table reference of a query pushed to `i` may legitimately live: in `i`, or it is a CTE name
-(`skip`: the repaired `get_query_info` of fixes/C11_1.diff does not resolve bare CTE names at all) -/
+(`skip = true`: `get_query_info` since 0e75382 does not resolve bare CTE names at all; `false`: before) -/
 def belongs (skip : Bool) (c : Catalog) (ctes : List Name) (i : Name) (parts : List Name) : Prop :=
   (skip = true ∧ isCteRef ctes parts = true) ∨
   ∃ integ rest, resolveSimple c parts = some (integ, rest) ∧
@@ -144,8 +144,8 @@ theorem C10_regression_6 :
 
 /-- the cut removes exactly the first part; unless an identifier spells the integration name twice
 in front (`int1.int1.t`, a schema named like the integration), or is a two-part column reference through an
-alias / CTE called like the integration that the repaired cut leaves alone (`keepsLocal`), nothing visited is
-still qualified.  With `names = []` (the code today) or `db ∉ names` the second exception is empty. -/
+alias / CTE called like the integration that the cut leaves alone since 1ea1207 (`keepsLocal`), nothing visited is
+still qualified.  With `names = []` (the cut before 1ea1207) or `db ∉ names` the second exception is empty. -/
 theorem C10_partial_stripped (db : Name) (names : List Name) (par : Par) (s : Slot) (n : Node)
     (h : ∀ x ∈ visitedIdents s n, doubleQual db x.1 x.2.1 = false ∧ keepsLocal db names x.2.2 x.1 x.2.1 = false) :
     ∀ y ∈ visitedIdents s (strip db names par s n), qualifiedBy db y.1 y.2.1 = false := by
